@@ -217,6 +217,37 @@ theorem innermost_size : ∀ (n : Nat) (so : Option Schema) (it : Schema), inner
       simp only [optSize]; omega
     · injection h with h; subst h; simp [optSize]
 
+/-- **The descent to the innermost `items` never stops for lack of fuel**: with at least `optSize` units (and
+    `processField` passes `max 64 (optSize items)`), the schema it returns is not an array schema — the Go loop
+    `for items.Type == "array" { items = items.Items }` has no bound, and neither has the model. -/
+theorem innermost_fuel_sufficient : ∀ (n : Nat) (so : Option Schema) (it : Schema), optSize so ≤ n →
+    innermostItems n so = some it → (it.type == "array") = false
+  | 0, so, it, hn, _ => by have := optSize_pos so; omega
+  | n + 1, none, it, _, h => by simp [innermostItems] at h
+  | n + 1, some s, it, hn, h => by
+    simp only [innermostItems] at h
+    split at h
+    · have hi := size_items s
+      simp only [optSize] at hn
+      exact innermost_fuel_sufficient n s.items it (by omega) h
+    · rename_i hna
+      injection h with h; subst h
+      simpa using hna
+
+/-- … and any two sufficient amounts of fuel find the same schema -/
+theorem innermost_fuel_irrelevant : ∀ (n m : Nat) (so : Option Schema), optSize so ≤ n → optSize so ≤ m →
+    innermostItems n so = innermostItems m so
+  | 0, _, so, hn, _ => by have := optSize_pos so; omega
+  | _, 0, so, _, hm => by have := optSize_pos so; omega
+  | n + 1, m + 1, none, _, _ => by simp [innermostItems]
+  | n + 1, m + 1, some s, hn, hm => by
+    simp only [innermostItems]
+    split
+    · have hi := size_items s
+      simp only [optSize] at hn hm
+      exact innermost_fuel_irrelevant n m s.items (by omega) (by omega)
+    · rfl
+
 /-- **Fuel sufficiency = totality of the schema → ABI conversion.** With more fuel than the size of the schema, none of
     the three mutually recursive functions of the model panics — whatever the schema contains (null properties,
     missing details, missing `items`, missing / negative / out-of-range / colliding positions, any nesting): the
